@@ -30,9 +30,21 @@ Points (event names `<who>:<point>`; `<who>` = history thread index, or `L` for 
     L:wait                          the loop thread created a future between L:xb and L:xd (it is about to wait: draining)
     L:r1 L:r2 L:r3                  run_until_complete() #n of the runner has returned (r3 = after the last loop iteration)
     L:close  L:closed               loop.close() about to run / done
-A hold `{"at": "<who>:<point>", "n": k, "until": [events…], "ms": t}` parks the thread at its k-th arrival at that point
-until ANY of the events has happened (or the owner-of-a-contended-lock rule applies, or t ms have passed: holds only ever
-DELAY, so a missed rendez-vous changes the schedule, never the verdict).
+    L:accfail                       the listener's accept() failed per script (see `acc` below)
+A hold `{"at": "<who>:<point>", "n": k, "until": [events…], "until_all": [events…], "ms": t}` parks the thread at its k-th
+arrival at that point until ANY of the `until` events has happened, or ALL of the `until_all` ones (or the
+owner-of-a-contended-lock rule applies, or t ms have passed: holds only ever DELAY, so a missed rendez-vous changes the
+schedule, never the verdict).
+
+The tail of the tear-down (added after seeded change C18-m8): a hold of the LOOP thread at `L:xd` / `L:r1` / `L:r2` / `L:r3` /
+`L:close` / `L:closed` with `until_all` = "the other threads have finished their calls" keeps the window "portal already
+exited, serve_forever() still tearing down" open (for `ms` at most) while 1-3 threads call shutdown() / serve_forever() /
+server_close() in it.  The `@g L:<point>#n held:<why>` line is logged by the loop thread when it moves on, i.e. BEFORE
+serve_forever() can finish: a `ret` line of a shutdown() that precedes it is a shutdown() that returned too early.
+
+`acc` (case key, standalone TCP): `acc[k]` = script for the successive `sock_accept()` calls of the k-th event loop the server
+creates (one per serve_forever()): "ok" = the real call, an errno name = accept() fails with it (capacity errors: the
+listener sleeps 100 ms — real time here — and retries); calls beyond the script are real.
 
 Two kinds of histories use the gates:
 * gated standalone-server histories (`GRun`, a subclass of c18_threads.Run; `"mode": "threads", "gated": 1`): the ordinary
@@ -51,6 +63,7 @@ from __future__ import annotations
 import asyncio
 import concurrent.futures
 import contextlib
+import errno
 import os
 import socket
 import sys
@@ -89,6 +102,8 @@ class Engine:
         self.in_exit = False              # between L:xb and L:xd
         self.closed_at: float | None = None
         self.lock_wrapped = False
+        self.acc: list[list[str]] = []    # accept() scripts, one per event loop created (GLoop.sock_accept)
+        self.n_loops = 0
 
     # ---- who
     def register(self, name: Any) -> None:
@@ -158,7 +173,7 @@ class Engine:
             why = "timeout"
             try:
                 while True:
-                    if self.sat_any(h.get("until", [])):
+                    if self.sat_any(h.get("until", [])) or (h.get("until_all") and self.sat_all(h["until_all"])):
                         why = "event"
                         break
                     if h.get("_abandon") or self._owns_contended(ident):
@@ -189,7 +204,7 @@ class Engine:
         try:
             while time.monotonic() < t_end:
                 with self.cv:
-                    if self.sat_any(h.get("until", [])):
+                    if self.sat_any(h.get("until", [])) or (h.get("until_all") and self.sat_all(h["until_all"])):
                         why = "event"
                         break
                 await asyncio.sleep(0.001)
@@ -278,6 +293,21 @@ class GLoop(asyncio.SelectorEventLoop):
         self.eng = eng
         self._g_ruc = 0
         eng.closed_at = None
+        k = eng.n_loops
+        eng.n_loops = k + 1
+        self._g_acc: list[str] = list(eng.acc[k]) if k < len(eng.acc) else []
+        self._g_acc_calls = 0
+
+    async def sock_accept(self, sock):  # type: ignore[override]
+        k = self._g_acc_calls
+        self._g_acc_calls = k + 1
+        name = self._g_acc[k] if k < len(self._g_acc) else "ok"
+        if name != "ok":
+            e = getattr(errno, name)
+            if self.eng.fire("L:accfail") == 1:
+                self.eng.log(f"@acc {k} {name}")
+            raise OSError(e, os.strerror(e))        # (as asyncio's own sock_accept: no suspension point before the error)
+        return await super().sock_accept(sock)
 
     def _g_who(self) -> str:
         try:
@@ -415,6 +445,7 @@ def grun_class(T: Any) -> type:
         def server_options(self) -> dict:
             cls = classes()
             self.eng = Engine(self.case.get("holds", []), self.log)
+            self.eng.acc = [list(x) for x in self.case.get("acc", [])]
             self.conns: dict[int, list[socket.socket]] = {}
             eng = self.eng
             return {"backend": cls["GBackend"](eng), "runner_options": {"loop_factory": lambda: GLoop(eng)}}
